@@ -222,6 +222,66 @@ def module_group_probe(ctx, root):
             sys.modules.pop(modname, None)
 
 
+def name_mode_prefix_probe(ctx, root):
+    """name mode: configs whose names are dot-prefixes of each other (`exp`, `exp.small`) keep separate results on one data directory — also
+    when the shorter one is forced with `delete_data=True`: the other's result, run info and log stay where they were"""
+    spec = {'classes': {'K0': {'name': 'w', 'group': 'g', 'params': [{'name': 'x'}], 'inputs': [], 'kind': 'json', 'run_args': ['x']}},
+            'files': {'exp.json': {'tasks': ['K0'], 'x': 1}, 'exp.small.json': {'tasks': ['K0'], 'x': 2}, 'exp.small.v2.json': {'tasks': ['K0'], 'x': 3}},
+            'main': 'exp.json', 'module': gen.fresh_modname()}
+    b = pl.materialize(spec, root / 'nmprefix', modname=spec['module'])
+    b.module()
+    data = root / 'nmprefix' / 'data'
+    chains = {}
+    for m in ('exp.json', 'exp.small.json', 'exp.small.v2.json'):
+        chains[m], _ = pl.build(b, data, main=m, parameter_mode=False)
+        _ = chains[m].tasks['g:w'].value
+    before = sorted(str(p_.relative_to(data)) for p_ in data.rglob('*') if p_.is_file())
+    case = {'probe': 'name mode, dot-prefixed config names, delete_data on the shorter', 'files_before': before}
+    ctx.case(case); ctx.count('name-mode-prefix-probe')
+    want = ['g/w/' + n for n in ('exp.json', 'exp.small.json', 'exp.small.v2.json')]
+    if not all(w in before for w in want):
+        ctx.fail('name-mode results are not at <group>/<task>/<config name>.<extension>', case, {})
+    chains['exp.json'].tasks['g:w'].force(delete_data=True)
+    after = sorted(str(p_.relative_to(data)) for p_ in data.rglob('*') if p_.is_file())
+    lost = [f for f in before if f not in after and not f.startswith('g/w/exp.json') and not f.startswith('g/w/exp.run_info') and not f.startswith('g/w/exp.log')]
+    if lost:
+        ctx.fail('deleting the result of one config removed files of a config whose name extends it: its stored result is orphaned', case, {'lost': lost})
+    b.cleanup_module()
+
+
+def foreign_data_class_probe(ctx, root):
+    """the extension of a result is the one of the library's data class for the task's type: a `Data` subclass that some imported module
+    defines for a type the library already handles does not silently take over (the library refuses the ambiguity, or keeps its own class)"""
+    import gc
+    from taskchain import Task, Config
+    from taskchain.data import JSONData
+
+    class Other(JSONData):
+        DATA_TYPES = [dict]
+
+        @property
+        def extension(self):
+            return 'other'
+
+    class Plain(Task):
+        class Meta:
+            name = 'plain'
+
+        def run(self) -> dict:
+            return {'v': 1}
+    case = {'probe': 'a foreign Data subclass for a type the library handles'}
+    ctx.case(case); ctx.count('foreign-data-class-probe')
+    try:
+        t = Config(root / 'foreigndc', name='c', data={'tasks': [Plain]}).chain().tasks['plain']
+        if not str(t.data_path).endswith('.json'):
+            ctx.fail('the result of a dict-valued task is not stored as <key>.json: results stored earlier are orphaned', case, {'path': str(t.data_path.name)})
+    except (AttributeError, ValueError):
+        pass
+    finally:
+        del Other
+        gc.collect()
+
+
 def run(ctx, generated_only=False):
     from tcv.quiet import quiet
     quiet()
@@ -309,6 +369,8 @@ def run(ctx, generated_only=False):
         golden_objects(ctx, root)
         golden_reprs(ctx, root)
         module_group_probe(ctx, root)
+        name_mode_prefix_probe(ctx, root)
+        foreign_data_class_probe(ctx, root)
     # ---- sha256 of the driver vs hashlib
     import hashlib
     texts = [o['text'] for o in out if 'text' in o][:2000]
